@@ -155,7 +155,8 @@ def gen_case(rng, idx):
         rng.shuffle(corder)
     return dict(machine=dict(w=w, h=h, res=caps, exc=exc, dead=[list(c) for c in dead], dead_links=dead_links),
                 vres=vres, nets=nets, constraints=cons, vorder=vorder, corder=corder,
-                effort=rng.choice([0, 0.1, 1]), seed=rng.randrange(1 << 30), mode=mode, idx=idx)
+                effort=rng.choice([0, 0.1, 1]), seed=rng.randrange(1 << 30), mode=mode, idx=idx,
+                sa_steps=rng.choice([0, 50, 200, 400]))
 
 
 # ------------------------------------------------------------------ independent oracle
@@ -382,6 +383,27 @@ Definition res_eqb (a b : result placement) : bool :=
   end.
 Definition chips_eqb (a b : list chip) : bool :=
   (length a =? length b)%nat && forallb (fun p => chip_eqb (fst p) (snd p)) (combine a b).
+Definition res_list_eqb (a b : resources) : bool :=
+  (length a =? length b)%nat && forallb (fun rq => rget (fst rq) a =? snd rq) b.
+Definition vlist_eqb (a b : list vertex) : bool :=
+  (length a =? length b)%nat && forallb (fun p => fst p =? snd p) (combine a b).
+Definition sa_replay (vr : vresources) (m : pmachine) (cs : list pconstr) (lp vp : list nat)
+           (draws : list (vertex * chip * bool)) (epl : placement) (emach : list (chip * resources))
+           (el2v : list (chip * list vertex)) : bool :=
+  match sa_prepare vr m cs lp vp with
+  | Ok s0 =>
+      match sa_steps (ss_vr s0) (map fst (ss_fixed s0))
+                     {| st_pl := ss_placement s0; st_l2v := init_l2v (ss_machine s0) (ss_placement s0);
+                        st_m := ss_machine s0 |} draws with
+      | Ok s => pl_eqb (st_pl s) epl
+                && forallb (fun cd => match mget (st_m s) (fst cd) with
+                                      | Some d => res_list_eqb d (snd cd) | None => false end) emach
+                && forallb (fun cl => match cassoc (fst cl) (st_l2v s) with
+                                      | Some vs => vlist_eqb vs (snd cl) | None => false end) el2v
+      | _ => false
+      end
+  | _ => false
+  end.
 Definition NOV : option (list vertex) := None.
 Definition NOC : option (list chip) := None.
 """
@@ -418,6 +440,16 @@ def model_exprs(c, r):
     if len(sh) in (0, 2):
         lp, vp = (sh + [[], []])[:2]
         corr("sa_initial", "sa_place_trivial vr m cs %s %s" % (nl(lp), nl(vp)))
+    st = aux.get("sal_state")
+    if st is not None and len(aux.get("sal_shuffles") or []) == 2 and aux.get("sal_steps"):
+        lp, vp = aux["sal_shuffles"]
+        draws = vlist("(%s, %s, %s)" % (zlit(a), chipl(b if b is not None else [-1, -1]), "true" if k else "false")
+                      for a, b, k in aux["sal_steps"])
+        ex.append(("corr:sa_python_kernel_steps", "sa_replay vr m cs %s %s %s %s %s %s" % (
+            nl(lp), nl(vp), draws,
+            vlist("(%s, %s)" % (zlit(v), chipl(xy)) for v, xy in st["placements"]),
+            vlist("(%s, %s)" % (chipl(xy), pairs(d)) for xy, d in st["machine"]),
+            vlist("(%s, %s)" % (chipl(xy), zl(vs)) for xy, vs in st["l2v"]))))
     # verified validator on every returned placement
     for cfg, o in out.items():
         if o[0] == "ok":
@@ -495,7 +527,9 @@ def run(chk, args):
             for c, r, (labels, _), v in zip(cases, results, labelled, vals):
                 for lab, b in zip(labels, v):
                     agree.setdefault(lab.split(":")[0] + ":" + lab.split(":")[1], [0, 0])[0 if b else 1] += 1
-                    if lab.startswith("corr:"):
+                    if lab == "corr:sa_python_kernel_steps":
+                        chk.traces_validated += len(r["aux"].get("sal_steps") or [])
+                    elif lab.startswith("corr:"):
                         chk.traces_validated += 1
                     if b:
                         continue
